@@ -405,6 +405,12 @@ def check_computed(model, rep, rm):
                f'contexts): the samples appended there are None or left over from an earlier instant', loc=rm.member.loc,
                detail=f'{len(per_ctx)} recording instant contexts call the same derived computations {sorted(everywhere)}')
     concrete = [c for c in model.subclasses('RotatingObject') if not model.is_abstract_class(c)]
+    dynamic_calls = []
+    for mod_, tree_ in model.trees.items():
+        if mod_.endswith('/solver.py'):
+            for c_ in ast.walk(tree_):
+                if isinstance(c_, ast.Call) and isinstance(c_.func, ast.Call) and isinstance(c_.func.func, ast.Name) and c_.func.func.id == 'getattr':
+                    dynamic_calls.append(f'`{ast.unparse(c_)[:50]}` at line {c_.lineno}')
     for cls in sorted(concrete):
         sx = SX(model)
         sx.opaque_calls |= OPAQUE
@@ -449,6 +455,12 @@ def check_computed(model, rep, rm):
                 a = missing[0][0]
                 why = (f'a {cls} records {key!r} while the solver calls {meth} only when {sorted(flags)} hold: for '
                        f'{[(str(k[1])[:50], v) for k, v in a.items()][:6]} a stale/None sample is appended')
+            if not ok and not cands and dynamic_calls:
+                # the solver calls methods whose NAME is data (`getattr(element, method)()` driven by a table): which computations
+                # run is not something this rule can read off - undecided, not a verdict
+                rep.cannot('C17.computed', f'{cls}[{key}]', f'the solver dispatches computations dynamically ({dynamic_calls[0]}); '
+                           f'whether {meth} is among them is not decided', mu.loc)
+                continue
             rep.decide(ok, 'C17.computed', f'{cls}[{key}]', why, loc=mu.loc)
 
 
